@@ -272,6 +272,8 @@ def _rp_cases():
         "zoom_in_2": GeoBox((30, 40), A * Affine.translation(2, 2) * Affine.scale(0.5), src.crs),
         "zoom_out_2": GeoBox((9, 12), A * Affine.translation(-1, -1) * Affine.scale(2.0), src.crs),
         "mirrored": GeoBox((20, 25), A * Affine.translation(28, 1) * Affine.scale(-1, 1), src.crs),
+        "mirrored_subpixel": GeoBox((20, 25), A * Affine.translation(28.4, 1.7) * Affine.scale(-1, 1), src.crs),
+        "mirrored_y_scaled": GeoBox((14, 20), A * Affine.translation(2.0, 21.5) * Affine.scale(1.3, -1.3), src.crs),
         "partial_overlap": GeoBox((20, 25), A * Affine.translation(20, 15), src.crs),
         "disjoint": GeoBox((10, 12), A * Affine.translation(200, 300), src.crs),
         "other_crs": None,
@@ -298,7 +300,7 @@ def _eq_samples():
         for vary in ("dst_nodata", "src_nodata", "resampling", "dst_geobox", "chunks"):
             yield dict(dst="partial_overlap", src_chunks=(7, 9), dst_chunks=(5, 6), dtype="int16", nodata=-1, time_axis=False, joint=vary)
 
-    return "9 destination placements (identical, whole-pixel shift, sub-pixel, x2, x1/2, mirrored, partial overlap, disjoint, other CRS) x 4-5 chunkings incl. 1-pixel and non-dividing chunks x dtypes/nodata x optional leading time axis; threaded and synchronous schedulers", gen()
+    return "11 destination placements (identical, whole-pixel shift, sub-pixel, x2, x1/2, mirrored, mirrored + sub-pixel, mirrored + x1.3, partial overlap, disjoint, other CRS) x 4-5 chunkings incl. 1-pixel and non-dividing chunks x dtypes/nodata x optional leading time axis; threaded and synchronous schedulers", gen()
 
 
 def _eq_oracle(args, run=None):
